@@ -216,6 +216,8 @@ def gen_seq(rng, n, combos):
 
 
 def is_combo(c):
+    if c["op"] in ("breakstate", "fixstate"):
+        return True        # fault injection: replay only, not modelled
     if c["op"] != "upd":
         return False
     n = sum(1 for k in ("color", "newname") if c.get(k)) + sum(1 for k in ("query", "conv") if c.get(k) is not None) + \
@@ -224,7 +226,7 @@ def is_combo(c):
 
 
 def norm_call(c):
-    d = {"op": c["op"], "name": c["name"], "color": c.get("color", ""), "def": c.get("def", ""), "newname": c.get("newname", ""),
+    d = {"op": c["op"], "name": c.get("name", ""), "color": c.get("color", ""), "def": c.get("def", ""), "newname": c.get("newname", ""),
          "query": c.get("query"), "conv": c.get("conv"), "markadd": c.get("markadd") or [], "markdel": c.get("markdel") or []}
     return d
 
@@ -424,7 +426,9 @@ def effect_ok(c, prev, cur, settle):
     """The change a successful call must have made (None = fine, else text)."""
     nm = c["name"]
     want = {k: dict(v) for k, v in prev.items()}
-    if c["op"] == "add":
+    if c["op"] in ("breakstate", "fixstate"):
+        pass
+    elif c["op"] == "add":
         if nm in prev:
             return "the tag existed before"
         if nm not in cur:
